@@ -13,7 +13,7 @@ import sys
 
 ID = "C09"
 LEVEL = "other"
-CONTRACT_MODULES = ["contracts.showdiffs", "contracts.status", "contracts.aliases", "contracts.registry", "contracts.rendering"]
+CONTRACT_MODULES = ["contracts.showdiffs", "contracts.status", "contracts.aliases", "contracts.registry", "contracts.rendering", "contracts.writeset"]
 EXPLANATION = ("'Two runs agree' is a relation between executions of the whole pipeline; no contract on one function states it. What is under contract is "
                "the function that DECIDES the non-force run: both loops of ClientGenerator._show_diffs carry a statement contract (one arbitrary "
                "iteration, for every file): a generated file without an equal counterpart sets has_diff, an existing module that is no longer "
@@ -179,7 +179,9 @@ def _perturbations(root, pkg, core):
 
 def bounded_rerun(tier, seed):
     from props import corpus, gen_harness as G
-    docs = {n: d for n, f, d in corpus.shapes(tier, seed) if n in (SHAPES if tier == "thorough" else SHAPES[:3])}
+    # (the random documents declare their responses out of ascending order, mix tag spellings and parameter orders)
+    rand = ["random-3", "random-21"] if tier != "thorough" else [f"random-{k}" for k in (1, 3, 5, 8, 13, 21, 34, 55)]
+    docs = {n: d for n, f, d in corpus.shapes(tier, seed) if n in (SHAPES if tier == "thorough" else SHAPES[:3]) or n in rand}
     layouts = [("cli", None), ("acme.clients.cli", "acme.shared.core"), ("cli", "cli.runtime.core")]
     failures, n = [], 0
     base = G.scratch("c09r")
